@@ -300,8 +300,8 @@ func confirms(v *Violation, r *replayResult) bool {
 		return kindOK && r.Pos == base
 	case "monitor":
 		if v.Label == "shared-write" {
-			// a data race report, or an observable difference between concurrent readers
-			return (r.Outcome == "fatal" && r.Kind == "race") || (r.Outcome == "assert" && r.Label == "concurrent-reads-differ") || r.Outcome == "panic"
+			// a data race report, a read that changed the shared object graph, or an observable difference between concurrent readers
+			return (r.Outcome == "fatal" && r.Kind == "race") || (r.Outcome == "assert" && (r.Label == "concurrent-reads-differ" || r.Label == "shared-state-written-by-a-read")) || r.Outcome == "panic"
 		}
 		for _, mh := range r.Monitors {
 			if strings.HasPrefix(mh, v.Label) {
